@@ -61,6 +61,18 @@ func getRealGrid(name string) *realGrid {
 	if g, ok := realGrids[name]; ok {
 		return g
 	}
+	if name == "syn-odd" {
+		// a round synthetic grid whose deepest pixel is an ODD number of 1e-10 units (2^-10 units = 9765625): half a pixel is
+		// then not representable, the regime in which "a level's pixels do not depend on the deepest level requested" is delicate
+		sg := newSynGrid(1, 2, -2, 3, "topLeft", 9) // span 4, ids 0..8 = levels 4..12
+		dg := &docGeom{ID: name, MinX: big.NewRat(-2, 1), MinY: big.NewRat(3, 1), Span0: big.NewRat(4, 1), TileWidth: 1, Cell: map[int]*big.Rat{}, MaxID: 8}
+		for z := 0; z <= 8; z++ {
+			dg.Cell[z] = new(big.Rat).Quo(big.NewRat(4, 1), new(big.Rat).SetInt(new(big.Int).Lsh(big.NewInt(1), uint(z))))
+		}
+		g := &realGrid{name: name, tms: sg.tms, dg: dg, dev: map[int]float64{}}
+		realGrids[name] = g
+		return g
+	}
 	t, err := tms20.LoadEmbeddedTileMatrixSet(name)
 	if err != nil {
 		fatal("%v", err)
@@ -209,7 +221,7 @@ func runReal(g *realGrid, lp lpoly, ids []int, reqIDs []int, c snap.Config, step
 				inc := new(big.Rat).Sub(new(big.Rat).Mul(g.dg.Cell[z], new(big.Rat).SetInt(new(big.Int).Lsh(big.NewInt(1), uint(z)))), g.dg.Cell[0])
 				inc.Abs(inc)
 				inc.Quo(inc, new(big.Rat).SetInt(new(big.Int).Lsh(big.NewInt(16), uint(z)))) // per pixel of level z
-				rr := resRec{Z: z, Polys: [][][][2]int{}}
+				rr := resRec{Z: z, Polys: [][][][2]int{}, Fp: fpOf(res[z])}
 				npts := 0
 				for _, p := range res[z] {
 					pp := [][][2]int{}
@@ -279,6 +291,7 @@ func realTrace(args []string) int {
 	variants := fs.String("variants", "base", "base,again,keep,rev,subsets")
 	maxZ := fs.Int("maxz", 20, "largest tile matrix id requested (ids with level > 32 panic: finding F9)")
 	deep := fs.Bool("deep", false, "also request ids whose level exceeds 32")
+	minZ := fs.Int("minz", 0, "smallest tile matrix id requested (deep ids + polygons of a few pixels)")
 	where := fs.String("where", "interior,origin,nl", "placement mix: interior,origin,far,nl,f4")
 	outp := fs.String("out", "-", "")
 	g0 := fs.Int("g0", 0, "")
@@ -302,8 +315,15 @@ func realTrace(args []string) int {
 		}
 		nid := 1 + rng.Intn(3)
 		idset := map[int]bool{}
+		lowID := *minZ
+		if lowID > maxID {
+			lowID = maxID
+		}
+		if nid > maxID-lowID+1 {
+			nid = maxID - lowID + 1
+		}
 		for len(idset) < nid {
-			idset[rng.Intn(maxID+1)] = true
+			idset[lowID+rng.Intn(maxID-lowID+1)] = true
 		}
 		ids := []int{}
 		for z := range idset {
@@ -323,7 +343,7 @@ func realTrace(args []string) int {
 		span, _ := g.dg.Span0.Float64()
 		wh := whereList[rng.Intn(len(whereList))]
 		radius := pixC * (1 + 6*rng.Float64())
-		if rng.Intn(3) == 0 {
+		if rng.Intn(3) == 0 || *minZ > 0 {
 			radius = pixF * (2 + 10*rng.Float64())
 		}
 		if radius/step > 15000 {
@@ -417,6 +437,25 @@ func realTrace(args []string) int {
 			c := cfg
 			c.ReverseWindingOrder = !c.ReverseWindingOrder
 			emit("rev", ids, c)
+		}
+		if want["ringrev"] {
+			for t := 0; t < min(len(lp), 2); t++ {
+				p2 := make(lpoly, len(lp))
+				any := false
+				for r := range lp {
+					if (t == 0 && r == 0) || (t == 1 && rng.Intn(2) == 0) {
+						p2[r] = reverseRing(lp[r])
+						any = true
+					} else {
+						p2[r] = lp[r]
+					}
+				}
+				if any {
+					rec := runReal(g, p2, ids, ids, cfg, step, ax, ay, kmax, rng)
+					rec.G, rec.V, rec.Tag, rec.Where = *g0+i, "ringrev", gname, wh
+					out.put(rec)
+				}
+			}
 		}
 		if want["subsets"] && len(ids) > 1 {
 			for _, s := range subsetsOf(ids) {
